@@ -154,6 +154,93 @@ if reach:
          "functools.partial helpers handed to Lua expose the Wtp context through the public attribute `args` "
          "(allowed by the attribute filter): getter(partial(get_page_info, ctx), 'args')[0] is ctx",
          {"helper": "partial(get_page_info, ctx)", "attribute": "args"}, "partial.args-exposes-ctx")
+# ---- the error channel: pcall() hands a module the Python exception object of a failing helper; everything
+# reachable from it through attributes the filter allows must be an immutable scalar, a tuple of such, another
+# exception, a value the module passed in itself, or a bound method of one of those
+if ctx.lua is None:
+    ctx.lua = lua
+cap = []
+luaexec.call_set_functions(ctx, cap.append)
+helpers_tbl = cap[0]
+mkpool = lua.eval("""function()
+  local t2 = {1, startswith = function() return false end}
+  local evil = {replace = function() return t2 end}
+  return {false, 0, -1, 1e308, "", "x", "a\\0b", {}, evil, function() end, true, string.rep("z", 5000), "Template:x"}
+end""")
+pool_t = mkpool()
+pool = [None] + [pool_t[i] for i in range(1, 14)]
+lpcall = lua.eval("function(f, a, b, c, n) if n == 0 then return pcall(f) elseif n == 1 then return pcall(f, a) "
+                  "elseif n == 2 then return pcall(f, a, b) else return pcall(f, a, b, c) end end")
+LUA_TYPES = tuple(getattr(lupa, n) for n in ("_LuaTable", "_LuaFunction", "_LuaObject") if hasattr(lupa, n))
+if not LUA_TYPES:
+    LUA_TYPES = (type(pool_t), type(lpcall))
+SCALARS = (type(None), bool, int, float, str, bytes)
+import types as _types
+METHODS = (_types.BuiltinFunctionType, _types.MethodType, _types.MethodWrapperType)
+
+
+def walk_error(e):
+    """returns (path, type name) of the first reachable Python object that is not allowed, else None"""
+    todo = [(e, "e")]
+    seen_ids = set()
+    while todo:
+        obj, path = todo.pop()
+        if id(obj) in seen_ids:
+            continue
+        seen_ids.add(id(obj))
+        if isinstance(obj, SCALARS) or isinstance(obj, LUA_TYPES):
+            continue
+        if isinstance(obj, tuple):
+            for i, x in enumerate(obj):
+                todo.append((x, f"{path}[{i}]"))
+            continue
+        if isinstance(obj, METHODS):
+            owner = getattr(obj, "__self__", None)
+            if isinstance(owner, SCALARS + (tuple, BaseException)) or isinstance(owner, type):
+                continue
+            return path, type(obj).__name__
+        if isinstance(obj, BaseException):
+            for name in dir(obj):
+                if name.startswith("_"):
+                    continue
+                try:
+                    v = getter(obj, name)          # through the runtime: the attribute filter decides
+                except Exception:
+                    continue
+                todo.append((v, f"{path}.{name}"))
+            continue
+        return path, type(obj).__name__
+    return None
+
+
+nerr = 0
+skipped_helpers = []
+for hname in sorted(helpers_tbl.keys()):
+    if "wikibase" in hname:
+        skipped_helpers.append(hname)      # these reach the network (absent here)
+        continue
+    h = helpers_tbl[hname]
+    for n in range(0, 3 if tier == "quick" else 4):
+        combos = itertools.product(pool, repeat=n)
+        for args in combos:
+            if n == 3 and rng.random() > 0.3:
+                continue
+            a = list(args) + [None] * 3
+            evaluations += 1
+            try:
+                with quiet_stdout():
+                    r = lpcall(h, a[0], a[1], a[2], n)
+            except Exception as ex:
+                r = (False, ex)
+            if isinstance(r, tuple) and r and r[0] is False and isinstance(r[1], BaseException):
+                nerr += 1
+                bad = walk_error(r[1])
+                if bad is not None:
+                    fail("luaexec:call_set_functions#errors-of-helpers-carry-no-python-object",
+                         f"pcall({hname}, ...) hands the module a {type(r[1]).__name__} from which a Python object of type "
+                         f"{bad[1]} is reachable at {bad[0]}",
+                         {"helper": hname, "nargs": n, "args": [repr(x)[:40] for x in args], "path": bad[0]},
+                         f"{bad[1]}@{hname}")
 import shutil
 shutil.rmtree(tmp, ignore_errors=True)
 emit({"evaluations": evaluations, "distinct_nontrivial": len(distinct),
@@ -161,4 +248,7 @@ emit({"evaluations": evaluations, "distinct_nontrivial": len(distinct),
       "failures": list(failures.values()), "samples": samples,
       "bound": f"{len(names)} module names (path soups over {len(SEG)} segments to depth {k}, disguised '..' variants, absolute and "
                "colon forms) with a planted file outside the lua directory; attribute filter on a bare LuaRuntime; "
+               f"every non-network helper called under pcall with all argument lists of length <= {2 if tier == 'quick' else 3} "
+               f"over {len(pool)} hostile values ({nerr} raised; object graph of each error walked through the filter; "
+               f"not exercised: {skipped_helpers}); "
                "Lua-side whitelists are NOT exercised (sandbox cannot start offline)"})
